@@ -128,7 +128,12 @@ def notices(text):
     for tok in tokenize.generate_tokens(io.StringIO('(' + text + '\n)').readline):
         if tok.type == tokenize.COMMENT:
             words.extend(tok.string[1:].split())
-    return sorted(int(x) for x in NOTICE.findall(' '.join(words))), len(words)
+    joined = ' '.join(words)
+    found = NOTICE.findall(joined)
+    if not found:
+        # wording may change; the statement only fixes the count: fall back to every integer in the comments
+        found = re.findall(r'(?<![\w.])(\d+)(?![\w.])', joined)
+    return sorted(int(x) for x in found), len(words)
 
 
 def build_long(kind, ln):
@@ -156,7 +161,7 @@ def oracle(case):
     p = values.pp(v, **cfg)
     if p.exc is not None:
         return core.viol('pformat-raised', repr(p.exc))
-    if p.warnings:
+    if p.fallback_warnings() or (n is None and p.warnings):
         return core.viol('warning', p.warnings[0][:400])
     counts, levels = [], []
     expected = truncate(v, N, counts, 0, levels)
